@@ -25,6 +25,27 @@ PROPS = {
         "explanation": "",
         "not_decided": [],
     },
+    "C19": {
+        "units": ["budget"],
+        "kani": {"quick": [], "thorough": []},
+        "level": "proof",
+        "level_text": "Unbounded deductive proof (Verus) of is_budget_valid / get_padding / the cost<->weight conversions against "
+                      "spec functions written from the property (CompactSize lengths, serialized stack length, ceil-weight): "
+                      "every cost <= CONSENSUS_MAX, every stack, every deficit (all five match arms), plus the stack-level "
+                      "sufficiency and minimality theorems over those contracts.",
+        "level_note": "Assumed: get_budget's contract (elements' consensus_encode of Vec<Vec<u8>> = CompactSize(count) + sum(CompactSize(len)+len), "
+                      "cross-checked by a bounded Kani harness); the annex-building iterator chain (bounded Kani harness); derive(PartialOrd) on "
+                      "single-field tuple structs is the field order (Kani complete harness); bitcoin::Weight to_wu/from_wu are the identity on u64; "
+                      "serialized stack shorter than 2^32 bytes (the code's own expect).",
+        "assumptions": [
+            "elements::encode::Encodable for Vec<Vec<u8>> yields CompactSize(count) + sum(CompactSize(len)+len) bytes",
+            "serialized witness stack shorter than 2^32 bytes (otherwise get_budget panics by its own expect)",
+            "derive(PartialOrd, Ord) on U32Weight(u32) / Cost(u32) is the order of the field",
+            "bitcoin::Weight::to_wu / from_wu are the identity on u64",
+        ],
+        "explanation": "",
+        "not_decided": [],
+    },
 }
 
 NOT_APPLICABLE = [
